@@ -396,9 +396,13 @@ def _run_sequence(sp, tests, max_timeout=5, per_stmt=2):
     MON.install()
     ex = TestCaseExecutor(sp, maximum_test_execution_timeout=max_timeout, test_execution_time_per_statement=per_stmt)
     ex.add_remote_observer(RemoteAssertionTraceObserver())
+    from pynguin.utils import randomness
+
     out = []
-    for t in tests:
+    for i, t in enumerate(tests):
         n0 = len(MON.leaks)
+        for _ in range(1 + i % 3):
+            randomness.RNG.random()  # Pynguin draws from its own stream between executions: the state is never the seed state
         try:
             res = ex.execute(t)
             summary = H.summarize(res, sp, verification=False)
